@@ -14,6 +14,8 @@ func getg() uintptr
 // documented way of learning a goroutine id (parsing runtime.Stack) is
 // compared with the words of the descriptor on several goroutines. If no
 // unique offset is found the slow way is used throughout.
+var calReason string
+
 var (
 	goidOffset  uintptr
 	goidFast    bool
@@ -45,9 +47,11 @@ func calibrateGoid() {
 	var samples []sample
 	var mu sync.Mutex
 	var wg sync.WaitGroup
-	// burn goroutine ids so that the sampled ids are distinctive values
-	for range 3 {
-		for range 700 {
+	// Sample goroutines whose ids are distinctive values. Ids are handed out
+	// from per-P caches, so a fresh goroutine can still get a small id:
+	// such samples are discarded and more are taken.
+	for attempt := 0; attempt < 200 && len(samples) < 4; attempt++ {
+		for range 64 {
 			wg.Add(1)
 			go func() { wg.Done() }()
 		}
@@ -56,32 +60,56 @@ func calibrateGoid() {
 		go func() {
 			defer wg.Done()
 			id := slowGoid()
+			if id < 300 {
+				return
+			}
 			g := getg()
 			var s sample
 			s.id = id
 			scanG(g, id, s.match[:])
 			mu.Lock()
+			for _, o := range samples {
+				if o.id == id {
+					mu.Unlock()
+					return
+				}
+			}
 			samples = append(samples, s)
 			mu.Unlock()
 		}()
 		wg.Wait()
 	}
+	if len(samples) < 4 {
+		calReason = "too few samples"
+		return
+	}
 	found := -1
 	for w := range words {
 		all := true
 		for _, s := range samples {
-			if !s.match[w] || s.id < 256 {
+			if !s.match[w] {
 				all = false
 			}
 		}
 		if all {
 			if found >= 0 {
+				calReason = "ambiguous"
 				return // ambiguous: stay on the slow path
 			}
 			found = w
 		}
 	}
 	if found < 0 {
+		calReason = "no offset matches:"
+		for _, s := range samples {
+			calReason += " id=" + itoa(int(s.id)) + "["
+			for w := range words {
+				if s.match[w] {
+					calReason += itoa(w) + ","
+				}
+			}
+			calReason += "]"
+		}
 		return
 	}
 	goidOffset = uintptr(found) * 8
@@ -96,6 +124,9 @@ func calibrateGoid() {
 	}()
 	wg.Wait()
 	goidFast = ok
+	if !ok {
+		calReason = "validation failed"
+	}
 }
 
 //go:nocheckptr
@@ -119,6 +150,9 @@ func Goid() uint64 {
 	}
 	return slowGoid()
 }
+
+// GoidCalReason explains a failed calibration.
+func GoidCalReason() string { return calReason }
 
 // GoidIsFast reports whether calibration succeeded (evidence only).
 func GoidIsFast() bool { goidCalOnce.Do(calibrateGoid); return goidFast }
